@@ -28,6 +28,7 @@ func runC09(c *Ctx) {
 	c.Clause("C09.6 every store that takes bytes out of the CRYPTO write buffer advances writeOffset by exactly the bytes removed (or, in scrambled mode, cuts at end once writeOffset == end)")
 	c.Clause("C09.8 plannedInitialPayload registers every CRYPTO frame of a planned datagram with the Initial retransmission handler (per-iteration must-pass)")
 	c.Clause("C09.9 splitRange clamps the number of frames to the number of bytes of the range")
+	c.Clause("C09.10 the flight stored for sending is the value validateInitialFlight accepted; C09.11 unsigned count-minus-constant in the random builders' conditions is guarded against wrap-around")
 	c.Clause("C09.7 the scrambler's ECH cut ends inside the ClientHello (bounded by end)")
 	c.NotCovered("the upstream anti-DPI scrambler's remaining cut arithmetic (findSNIAndECH, cut ordering in initialCryptoStream.PopCryptoFrame)")
 
@@ -40,6 +41,8 @@ func runC09(c *Ctx) {
 	c.rule("C09.7", func() { c09CutBounds(c) })
 	c.rule("C09.8", func() { c09PlannedRegistered(c) })
 	c.rule("C09.9", func() { c09SplitClamp(c) })
+	c.rule("C09.10", func() { c09ValidatedIsSent(c) })
+	c.rule("C09.11", func() { c09NoUnsignedWrapInGuards(c) })
 }
 
 func c09Flight(c *Ctx) {
@@ -329,6 +332,7 @@ func runC10(c *Ctx) {
 	c.Clause("C10.6 appendInitialPacket captures the datagram index before the payload builder advances it")
 	c.Clause("C10.7 the spec packer reads the CRYPTO write offset of the Initial stream only")
 	c.Clause("C10.8 tokenLength = max(ClientTokenLength, len(prefix)); the minimum-UDP-size padding is applied only under PacketSize == 0")
+	c.Clause("C10.9 packPlannedInitial advances initialDatagramIdx for every datagram it takes; the single PN length is installed only when the per-packet list is empty")
 	c.NotCovered("actual sizes / frame counts on the wire; decryptability by a server")
 	c.NotCovered("that a re-framed Initial stays within the connection's current maximum packet size (no such comparison exists: see DESIGN H7)")
 
@@ -340,6 +344,7 @@ func runC10(c *Ctx) {
 	c.rule("C10.6", func() { c10IndexBeforeMarshal(c) })
 	c.rule("C10.7", func() { c10InitialStreamOnly(c) })
 	c.rule("C10.8", func() { c10TokenAndPadding(c) })
+	c.rule("C10.9", func() { c10PlannedIndexAndPrecedence(c) })
 }
 
 func c10Live(c *Ctx) {
